@@ -1040,3 +1040,70 @@ def forall_table(g, atoms, expected):
         if not want and True in got:
             bad.append((vals, sorted(got), 'passes'))
     return bad
+
+
+# ---------------------------------------------------------------- expected compositions, compared modulo delegation
+def expected_call(F, name, *args, self_suffix='Envelope'):
+    """A call term to the crate's method `name` (for writing the expected value of a composition); None if absent."""
+    b = F.method1(self_suffix, name)
+    if b is None or any(a is None for a in args):
+        return None
+    if b.path not in CALLEES:
+        CALLEES[b.path] = Callee({'path': b.path, 'name': b.name, 'hash': b.hash, 'krate': F.krate, 'impl_self': b.impl_self, 'dk': b.dk})
+    return ('call', b.path, tuple(args), None)
+
+
+NONE = ('agg', 'core::option::Option', 'None', (), ())
+
+
+def _expand_once_everywhere(F, t):
+    """All terms obtained from t by expanding exactly one crate-local call (at any position) one level."""
+    out = []
+    if not isinstance(t, tuple) or not t:
+        return out
+    if t[0] == 'call':
+        e = inline(F, t, depth=1, strip=True)
+        if e != t:
+            out.append(e)
+    for i, x in enumerate(t):
+        if isinstance(x, tuple):
+            for y in _expand_once_everywhere(F, x):
+                out.append(t[:i] + (y,) + t[i + 1:])
+    return out
+
+
+def expansions(F, t, steps=3, cap=400):
+    """Canonicalised variants of t reachable by at most `steps` single-call expansions."""
+    t0 = detry(t)
+    seen = {_canon_calls(strip_sites(t0)): t0}
+    frontier = [t0]
+    for _ in range(steps):
+        nxt = []
+        for x in frontier:
+            for y in _expand_once_everywhere(F, x):
+                k = _canon_calls(strip_sites(detry(y)))
+                if k not in seen and len(seen) < cap:
+                    seen[k] = y
+                    nxt.append(y)
+        frontier = nxt
+    return set(seen)
+
+
+def same_mod_inline(F, a, b, steps=3):
+    """Two compositions are the same when some expansion of one (crate-local calls replaced by their single success value, at
+    most `steps` times, anywhere) equals some expansion of the other: seal == seal_opt(.., None) == encrypt_to_recipient(sign_opt(.., None), ..)
+    == encrypt_to_recipient(sign(..), ..)."""
+    if a is None or b is None:
+        return False
+    return bool(expansions(F, a, steps) & expansions(F, b, steps))
+
+
+def _canon_calls(t):
+    """Callee keys replaced by their generics-free resolved path, so a synthetic expected call compares equal to a real one."""
+    if not isinstance(t, tuple) or not t:
+        return t
+    if t[0] == 'call':
+        c = CALLEES.get(t[1])
+        key = strip_generics(c.best) if c is not None else t[1]
+        return ('call', key, tuple(_canon_calls(x) for x in t[2]))
+    return tuple(_canon_calls(x) if isinstance(x, tuple) else x for x in t)
